@@ -118,7 +118,7 @@ def san_env(flavour, logprefix=None):
 
 class Case(object):
     """One self contained unit of work for wbmon: creates its worlds, queries, nothing survives."""
-    __slots__ = ('cid', 'cmds', 'meta', 'results', 'crash', 'files')
+    __slots__ = ('cid', 'cmds', 'meta', 'results', 'crash', 'files', 'dirs')
 
     def __init__(self, cid, cmds=None, meta=None, files=None):
         self.cid = str(cid)
@@ -127,6 +127,7 @@ class Case(object):
         self.results = None   # list of (status, payload) aligned with cmds; status in ok/ex/exx/harness/missing
         self.crash = None     # None or dict(kind=..., key=..., log=..., at=index of the command that never answered)
         self.files = files or {}
+        self.dirs = []
 
     def add(self, *fields):
         self.cmds.append('\t'.join(str(f) for f in fields))
@@ -303,6 +304,8 @@ def run_cases(flavour, cases, name, per_case_timeout=60, workers=None, extra_env
         shutil.rmtree(workdir, ignore_errors=True)
     os.makedirs(workdir, exist_ok=True)
     for c in cases:
+        for dn in c.dirs:
+            os.makedirs(os.path.join(workdir, dn), exist_ok=True)
         for fn, content in c.files.items():
             path = os.path.join(workdir, fn)
             with open(path, 'w') as f:
